@@ -2,20 +2,30 @@
 import json, os
 import vf
 
+last_drift = {}
+
 
 def classify(pid, viols, trace_path, describe):
     """viols: [(line, clause)].  Clauses named 'KNOWN:<finding-id>' come from Dev_* actions of the
     spec, which are enabled only for findings listed in known_findings.jsonl.  Returns
     (n_new, known_ids, replay_path)."""
     known = {k["id"]: k for k in vf.load_known() if k.get("status") == "open" and k.get("property") == pid}
-    new, seen_known = [], {}
+    new, seen_known, drift = [], {}, {}
     for ln, clause in viols:
         if clause.startswith("KNOWN:") and clause[6:] in known:
             seen_known.setdefault(clause[6:], ln)
+        elif clause.startswith("MODEL:"):
+            # conformance with a constructive model: the code does something the model does not compute, but no
+            # clause of the property is violated by it.  Reported, recorded in the evidence, never a verdict.
+            drift.setdefault(clause, []).append(ln)
         else:
             new.append((ln, clause))
     for fid, ln in sorted(seen_known.items()):
         print("KNOWN-FINDING: property=%s %s: %s" % (pid, fid, known[fid]["what"]), flush=True)
+    for c, lns in sorted(drift.items()):
+        print("MODEL-DRIFT: property=%s %s at %d trace line(s), first %d (no property clause violated by these steps)" % (pid, c, len(lns), lns[0]), flush=True)
+    global last_drift
+    last_drift = {c: len(l) for c, l in drift.items()}
     replay = None
     if new:
         d = vf.rundir(pid, "violations")
